@@ -138,7 +138,21 @@ impl SigWorld {
                 let details = self.w.cam().ca_show_child(&CaHandle::from_str(PARENT).unwrap(), &ch).map_err(h)?;
                 let v = serde_json::to_value(&details).map_err(h)?;
                 let res = v.get("entitled_resources").map(|x| x.to_string()).unwrap_or_default();
-                let mut keys: Vec<String> = Vec::new();
+                // the keys the parent has on record for the child, with their state
+                let mut keys: Vec<String> = serde_json::to_value(&info.used_keys)
+                    .ok()
+                    .and_then(|v| v.as_object().map(|m| m.iter().map(|(k, st)| format!("{k}={st}")).collect()))
+                    .unwrap_or_default();
+                // and the certificates it publishes for them
+                for (rcn, rc) in serde_json::to_value(&*ca).ok().and_then(|v| v.get("resources").cloned()).and_then(|r| r.as_object().cloned()).unwrap_or_default() {
+                    if let Some(certs) = rc.get("certificates").and_then(|c| c.get("inner").or(Some(c))).and_then(|c| c.as_object()) {
+                        for k in certs.keys() {
+                            if info.used_keys.keys().any(|u| u.to_string() == *k) {
+                                keys.push(format!("cert:{rcn}:{k}"));
+                            }
+                        }
+                    }
+                }
                 collect_keys(&v, &mut keys);
                 keys.sort();
                 children.insert(c.to_string(), (info.id_cert.public_key.key_identifier().to_string(), res, keys));
@@ -259,6 +273,15 @@ pub enum Pay8181 {
 
 pub const CLASSES: [&str; 3] = ["0", "1", "x"];
 
+/// Children are different organisations: they do not share key pairs. A
+/// certificate request can only be made for a key the requester owns (the
+/// CSR proves possession); c1 owns CA keys 0 and 1, c2 owns 2 and 3.
+/// Revocation requests name a key by its identifier only and may name any.
+pub fn own_key(sender: &str, key: u8) -> usize {
+    let base = if sender == CHILDREN[1] { 2 } else { 0 };
+    base + (key as usize % 2)
+}
+
 pub fn owner_base(owner: u8) -> String {
     match owner % 4 {
         0 => "rsync://krill.example.org/repo/pub1/".into(),
@@ -283,7 +306,7 @@ impl SigWorld {
         Ok(match pay {
             Pay6492::List => provisioning::Message::list(s, r),
             Pay6492::Issue { key, class, limit } => {
-                let csr = self.csr(*key as usize, sender)?;
+                let csr = self.csr(own_key(sender, *key), sender)?;
                 let mut lim = RequestResourceLimit::new();
                 match limit % 4 {
                     1 => lim.with_ipv4(ResourceSet::from_strs("", "10.0.0.0/16", "").map_err(h)?.ipv4().clone()),
